@@ -42,6 +42,7 @@ type opCase struct {
 	Guard   string
 	Emits   []string
 	Updates [][2]string
+	Post    []string // relations between the cells before (plain names, old values) and after (primed names) the callback
 	Clause  Clause
 }
 
@@ -58,6 +59,8 @@ type OpSpec struct {
 	Cases    []opCase
 	Site     int
 	Given    map[string][]string
+	Alias    map[string]string
+	Track    []string // further event patterns that are part of a callback's observable behaviour (collector calls...)
 }
 
 var onRe = regexp.MustCompile(`^([A-Za-z@_0-9.]+)\s*\(([^)]*)\)\s*(?:when\s+(.*?))?\s*:\s*(.*)$`)
@@ -114,6 +117,10 @@ func parseOpSpec(b *Block) (*OpSpec, error) {
 					}
 					continue
 				}
+				if strings.HasPrefix(act, "post ") {
+					oc.Post = append(oc.Post, strings.TrimSpace(strings.TrimPrefix(act, "post ")))
+					continue
+				}
 				kv := strings.SplitN(act, "=", 2)
 				if len(kv) == 2 && strings.HasSuffix(strings.TrimSpace(kv[0]), "'") {
 					oc.Updates = append(oc.Updates, [2]string{strings.TrimSuffix(strings.TrimSpace(kv[0]), "'"), strings.TrimSpace(kv[1])})
@@ -137,7 +144,19 @@ func parseOpSpec(b *Block) (*OpSpec, error) {
 				sp.Given = map[string][]string{}
 			}
 			sp.Given[strings.TrimSpace(kv[0])] = append(sp.Given[strings.TrimSpace(kv[0])], strings.TrimSpace(kv[1]))
-		case "props", "note", "teardown", "mode", "alias", "userfn", "inline":
+		case "track":
+			sp.Track = append(sp.Track, strings.Fields(c.Text)...)
+		case "alias":
+			for _, f := range strings.Fields(c.Text) {
+				kv := strings.SplitN(f, "=", 2)
+				if len(kv) == 2 {
+					if sp.Alias == nil {
+						sp.Alias = map[string]string{}
+					}
+					sp.Alias[kv[0]] = kv[1]
+				}
+			}
+		case "props", "note", "teardown", "mode", "userfn", "inline":
 		default:
 			return nil, fmt.Errorf("%s:%d: unknown operator clause %q", shortFile(c.File), c.Line, c.Kind)
 		}
@@ -231,14 +250,19 @@ func findTriples(sub *ssa.Function) []obsTriple {
 					continue
 				}
 				name := staticCalleeName(call.Common())
-				if name != "NewObserverWithContext" && name != "NewObserver" {
+				slot := map[string]int{"OnNext": 0, "OnNextWithContext": 0, "OnError": 1, "OnErrorWithContext": 1, "OnComplete": 2, "OnCompleteWithContext": 2}
+				t := obsTriple{Call: call, WithCtx: strings.HasSuffix(name, "WithContext"), In: fn}
+				if name == "NewObserverWithContext" || name == "NewObserver" {
+					if len(call.Call.Args) != 3 {
+						continue
+					}
+					copy(t.Args[:], call.Call.Args)
+				} else if i, ok := slot[name]; ok && len(call.Call.Args) == 1 {
+					// partial observer: the other two callbacks do nothing
+					t.Args[i] = call.Call.Args[0]
+				} else {
 					continue
 				}
-				if len(call.Call.Args) != 3 {
-					continue
-				}
-				t := obsTriple{Call: call, WithCtx: name == "NewObserverWithContext", In: fn}
-				copy(t.Args[:], call.Call.Args)
 				// who subscribes with it?
 				for _, r := range *call.Referrers() {
 					if c2, ok := r.(*ssa.Call); ok && c2.Common().IsInvoke() && strings.HasPrefix(c2.Common().Method.Name(), "Subscribe") {
@@ -455,6 +479,9 @@ func (mr *machineRun) run() {
 	for ti := range site.Triples {
 		t := &site.Triples[ti]
 		for i, k := range kinds {
+			if t.Args[i] == nil {
+				continue // partial observer (OnNext...): this callback does nothing
+			}
 			name := k
 			if len(site.Triples) > 1 {
 				name = k + "@" + t.Source
@@ -518,6 +545,13 @@ func (mr *machineRun) env(x *Exec, st *State, vars map[string]SVal) *Env {
 	}
 	env := &Env{X: x, St: st, Vars: vars, Events: st.Events, Alias: emitAlias, UserFn: userFn, UserSig: sigs,
 		Track: func(n string) bool { return strings.HasPrefix(n, "destination.") }}
+	env.Alias = map[string]string{}
+	for k, v := range emitAlias {
+		env.Alias[k] = v
+	}
+	for k, v := range mr.sp.Alias {
+		env.Alias[k] = v
+	}
 	env.CellType = func(name string) types.Type { return mr.cells[name] }
 	return env
 }
@@ -600,13 +634,19 @@ type pathEnd struct {
 }
 
 // effective returns the destination events of a path truncated after the first terminal.
-func effective(evs []Event) (out []Event, closed bool) {
+func effective(evs []Event, extra ...string) (out []Event, closed bool) {
 	for _, ev := range evs {
-		if !strings.HasPrefix(ev.Name, "destination.") && !strings.HasPrefix(ev.Name, "loop:") {
+		tracked := strings.HasPrefix(ev.Name, "destination.") || strings.HasPrefix(ev.Name, "loop:")
+		for _, p := range extra {
+			if eventNameMatch(normEventName(p), ev.Name) {
+				tracked = true
+			}
+		}
+		if !tracked {
 			continue
 		}
 		out = append(out, ev)
-		if isTerminalEvent(ev.Name) {
+		if strings.HasPrefix(ev.Name, "destination.") && isTerminalEvent(ev.Name) {
 			return out, true
 		}
 	}
@@ -628,8 +668,18 @@ func (mr *machineRun) runRole(role string, t *obsTriple, idx int, cases []opCase
 		mr.u.Errs = append(mr.u.Errs, fmt.Sprintf("%s/%s: callback is not a function", mr.sp.Name, role))
 		return
 	}
+	var cbFn *ssa.Function
+	switch a := arg.(type) {
+	case *ssa.MakeClosure:
+		cbFn, _ = a.Fn.(*ssa.Function)
+	case *ssa.Function:
+		cbFn = a
+	}
 	for i := 0; i < cbSig.Params().Len(); i++ {
 		pv := x.symbolic(st, fmt.Sprintf("%s$%d", role, i), cbSig.Params().At(i).Type())
+		if cbFn != nil && i < len(cbFn.Params) {
+			pv.Src = cbFn.Params[i].Name() // events on a parameter are named after it (ctx.Value, ...)
+		}
 		if isContextType(cbSig.Params().At(i).Type()) && pv.K == KU {
 			// induction hypothesis of C09: upstream never calls back with a nil context
 			st.assume(not(eq(pv.T, "nil")))
@@ -700,7 +750,7 @@ func (mr *machineRun) runRole(role string, t *obsTriple, idx int, cases []opCase
 		}
 		pcs = append(pcs, e.st.PC)
 		add("nopanic", boolLit(e.ex.Kind != ExitPanic), "the callback does not panic", e.st.PC)
-		evs, closed := effective(e.st.Events)
+		evs, closed := effective(e.st.Events, mr.sp.Track...)
 		for _, ev := range evs {
 			if strings.HasSuffix(ev.Name, "WithContext") && len(ev.Args) > 0 && ev.Args[0].K == KU {
 				add("ctx-nonnil", not(eq(ev.Args[0].T, "nil")), fmt.Sprintf("on %s: no notification is forwarded with a nil context", role), e.st.PC)
@@ -752,6 +802,16 @@ func (mr *machineRun) runRole(role string, t *obsTriple, idx int, cases []opCase
 			add("emits", imp(guard, boolLit(shape)), fmt.Sprintf("on %s: the calls made on destination (up to the first terminal) are the notifications the contract emits, in number and kind", role), e.st.PC)
 			if shape {
 				add("emits-args", imp(guard, and(cs...)), fmt.Sprintf("on %s: each emitted notification carries exactly the context and value the contract names", role), e.st.PC)
+			}
+			for pi, pexpr := range c.Post {
+				envPost := mr.env(x, e.st, cv)
+				envPost.Old = true // plain names denote the state before the callback, primed names the state after
+				g, err := envPost.evalBool(pexpr)
+				if err != nil {
+					mr.u.Errs = append(mr.u.Errs, fmt.Sprintf("%s:%d: post: %v", shortFile(c.Clause.File), c.Clause.Line, err))
+					g = "false"
+				}
+				add(fmt.Sprintf("post#%d", pi), imp(guard, g), fmt.Sprintf("on %s: %s", role, pexpr), e.st.PC)
 			}
 			// invariant after, unless the operator closed its output
 			specCloses := false
@@ -807,7 +867,7 @@ func (mr *machineRun) emit(x *Exec, role string, byName map[string][]Obl, notes 
 				}
 			}
 		}
-		o := OutObl{Name: mr.sp.Name + "/" + role + "/" + n, Props: props, Layer: "M", Func: mr.sp.Name, Clause: notes[n], Pos: pos, Paths: len(byName[n]), Contract: shortFile(mr.sp.Block.File)}
+		o := OutObl{Name: qualName(mr.sp.Block) + "/" + role + "/" + n, Props: props, Layer: "M", Func: qualName(mr.sp.Block), Clause: notes[n], Pos: pos, Paths: len(byName[n]), Contract: shortFile(mr.sp.Block.File)}
 		if trivial {
 			o.Backend, o.Status = "structural", "discharged"
 		} else {
@@ -816,7 +876,7 @@ func (mr *machineRun) emit(x *Exec, role string, byName map[string][]Obl, notes 
 		mr.u.Obls = append(mr.u.Obls, o)
 	}
 	if len(pcs) > 0 {
-		mr.u.Obls = append(mr.u.Obls, OutObl{Name: mr.sp.Name + "/" + role + "/cover", Props: mr.props, Layer: "M", Func: mr.sp.Name, Clause: "vacuity cover: requires and invariant are satisfiable on some path", Backend: "smt", SMT: coverQuery(x.D, pcs), Cover: true, Paths: len(pcs), Contract: shortFile(mr.sp.Block.File)})
+		mr.u.Obls = append(mr.u.Obls, OutObl{Name: qualName(mr.sp.Block) + "/" + role + "/cover", Props: mr.props, Layer: "M", Func: qualName(mr.sp.Block), Clause: "vacuity cover: requires and invariant are satisfiable on some path", Backend: "smt", SMT: coverQuery(x.D, pcs), Cover: true, Paths: len(pcs), Contract: shortFile(mr.sp.Block.File)})
 	}
 }
 
@@ -891,7 +951,7 @@ func (mr *machineRun) runInit() {
 		}
 		pcs = append(pcs, e.st.PC)
 		if len(subCases) > 0 {
-			evs, _ := effective(e.st.Events)
+			evs, _ := effective(e.st.Events, mr.sp.Track...)
 			for _, c := range subCases {
 				cv := map[string]SVal{}
 				for i, p := range c.Params {
